@@ -73,7 +73,8 @@ def leaves(b, defs, l, depth, out, seen, fields=None, via=None):
     if depth > 12 or (l, via) in seen:
         return
     seen.add((l, via))
-    if b.lname(l) or 1 <= l <= b["arg_count"]:
+    if (b.lname(l) and b.lname(l) not in ("val", "residual")) or 1 <= l <= b["arg_count"]:
+        # (`val` / `residual` are the bindings of the `?` desugaring: transparent)
         out.add(l)
         if fields is not None:
             fields.setdefault(l, set()).add(via)
@@ -184,6 +185,9 @@ def census(F, scopes):
                 for bi in body:
                     for st in b.blocks[bi]["stmts"]:
                         if st["rv"]["k"] == "ref" and st["rv"].get("mut") and st["rv"]["place"]["l"] == l:
+                            assigned.add(l)
+                        # store through a `&mut` parameter / local: `*rho = ..`, `(*rho)[i] = ..`
+                        if st["place"]["l"] == l and "*" in st["place"]["p"]:
                             assigned.add(l)
             if not assigned:
                 continue
